@@ -119,6 +119,29 @@ Fixpoint p_op (fuel : nat) (ts : toks) : option (op * toks) :=
         | h :: r1 => match p_until k (p_op k) r1 with Some (body, r2) => Some (OOnce (num h) body, r2) | None => None end
         | _ => None
         end
+      else if is t "F" then
+        match r with
+        | h :: r1 => match p_until k (p_op k) r1 with Some (body, r2) => Some (OOnceC (num h) body, r2) | None => None end
+        | _ => None
+        end
+      else if is t "Z" then match r with h :: r1 => Some (OOnceSelf (num h), r1) | _ => None end
+      else if is t "S" then
+        match r with
+        | slot :: r1 =>
+            match p_until k (p_op k) r1 with
+            | Some (pre, blk :: r2) =>
+                match p_until k (p_op k) r2 with
+                | Some (block, r3) =>
+                    match p_until k (p_op k) r3 with
+                    | Some (post, r4) => Some (OCall (tbool slot) pre (tbool blk) block post, r4)
+                    | None => None
+                    end
+                | None => None
+                end
+            | _ => None
+            end
+        | _ => None
+        end
       else None
     end
   end.
@@ -194,10 +217,14 @@ Definition init_st (cfgs : list cfg) : nat -> reg :=
 Definition later_sheets (ops : list op) : bytes :=
   flat_map (fun o => match o with OMiddleware l => sheet_of l ++ [x0a] | _ => [] end) ops.
 
-(* reply for context c: bytes, stylesheet, log, uses served, stylesheets of the later middlewares *)
+(* a first render of a handle that has neither component nor children leaves nothing in the document to read back *)
+Definition visible (k : chunk) : bool := match k with KOnceNone _ => false | _ => true end.
+
+(* reply for context c: bytes, stylesheet, log (of what leaves a trace in the bytes), uses served, stylesheets of the
+   later middlewares *)
 Definition ctx_reply (cfgs : list cfg) (h : list (nat * op)) (out : list (nat * chunk)) (c : nat) : list bytes :=
   let cs := proj c out in
-  [render cs; stylesheet (nth c cfgs (mkCfg [] None)); flat_map enc_ev (log cs); flat_map enc_want (wants cs);
+  [render cs; stylesheet (nth c cfgs (mkCfg [] None)); flat_map enc_ev (log (filter visible cs)); flat_map enc_want (wants cs);
    later_sheets (proj c h)].
 
 Definition parse (ts : toks) : option (list cfg * list (nat * op) * toks) :=
